@@ -167,6 +167,19 @@ CHECKS = {
         technique='term equivalence of emitted vs reference expression (z3 EUF + real arithmetic), IEEE-754 bit-precise check of literals (z3 FP), CrossHair for blank/override clauses',
         engine='E3+E2+E1',
     ),
+    'C16': dict(
+        category='other',
+        text=('Bit-precise symbolic execution (own explorer, z3 Float64/RNE proxies for * / ceil floor comparisons) of the real _roundup/_rounddown '
+              'bodies of the regenerated runtime: for every (function, sign, scale s, digit count n) the solver decides over all decimal mantissas '
+              'M < 2000 (quick) / 10^5 that the result is the double nearest to the decimal-exact result, outside the recorded known-finding '
+              'region (decimals already at precision but not exactly representable), where a weaker one-unit bound is decided instead (thorough). '
+              '_round is decided structurally: its body must be exactly round(number, int(digits)).'),
+        design_ref='DESIGN.md section 6 / C16',
+        note=('NOT decided: the percent clause (x% to 15 significant digits: the .15g formatting is C code and cannot be encoded) and the semantics of '
+              "Python's round() on ties (C, dtoa) - the latter is a recorded known finding. ceil/floor results are integral FP terms (exact below 2^53)."),
+        technique='symbolic execution of the real Python code on IEEE-754 proxies, z3 floating-point theory (QF_FPBV) per path',
+        engine='E2',
+    ),
 }
 
 NOT_YET = {}   # filled below for every property without a check
